@@ -188,8 +188,8 @@ theorem reinsertion_noop (cfg : TblCfg) (tol : Rat) (rows : List Row) (Ts vals :
 theorem genPairs_ok : PairsOK Drive.genCfg := by
   constructor <;> decide +kernel
 
-/-- **Row bookkeeping survives an insertion** (partial: no requested temperature above the top row —
-    the top block with its pinned single-row exception is covered by the correspondence only).
+/-- **Row bookkeeping survives an insertion at or below the top row**, whatever books the first row
+    keeps (for insertions above the table see `bookkeeping_preserved`, which needs a zero first row).
     If the first row keeps its books (ΔT numeric, CPs numeric, every ΔH = ΔT·CP) and every later
     row's ΔT is the gap to the row above with ΔH = ΔT·CP, then the same holds for the table
     returned for ANY list of requested temperatures at or below the top: every new or adjusted row's
@@ -201,6 +201,18 @@ theorem bookkeeping_preserved_partial (cfg : TblCfg) (ok : CfgOK cfg) (pk : Pair
     (he : insertTemps cfg tol (r0 :: rest) vals = .ok (out, n)) :
     ∃ h tail, out = h :: tail ∧ Plain cfg t0 h ∧ Book cfg d0 h ∧ LinkedFrom cfg t0 tail :=
   insertTemps_book cfg ok pk tol htol r0 rest t0 d0 vals hp hb hl hnotop out n he
+
+/-- **Row bookkeeping survives ANY insertion**, also above the table: if the first row is a zero row
+    (ΔT numeric, heat capacities and enthalpy changes 0 — what the top row of a problem table is)
+    and every later row is linked to the row above it (ΔT = gap, ΔH = CP·ΔT), then so is every row
+    after the first of the table returned for any requested temperatures — above, inside, below, in
+    any number — and the new first row keeps its books. -/
+theorem bookkeeping_preserved (cfg : TblCfg) (ok : CfgOK cfg) (pk : PairsOK cfg) (tol : Rat) (htol : 0 ≤ tol)
+    (r0 : Row) (rest : List Row) (t0 d0 : Rat) (vals : List Rat)
+    (hz0 : ZRow cfg t0 d0 r0) (hl : LinkedFrom cfg t0 rest) (out : List Row) (n : Nat)
+    (he : insertTemps cfg tol (r0 :: rest) vals = .ok (out, n)) :
+    ∃ h tail, out = h :: tail ∧ (∃ t d, Plain cfg t h ∧ Book cfg d h) ∧ List.IsChain (LinkR cfg) out :=
+  insertTemps_book_full cfg ok pk tol htol r0 rest t0 d0 vals hz0 hl out n he
 
 /-- the hypotheses are satisfiable: a two-row table over columns (T, ΔT, CP, ΔH) -/
 example : let cfg : TblCfg := { nCols := 4, tI := 0, dI := 1, interp := [], pairs := [(2, 3)] }
